@@ -80,6 +80,9 @@ pub trait RangeNumber: FromStr + PartialOrd + Copy + MaybeToTokens {
 
     fn range_end_bound(self) -> Option<Bound<Self>>;
 
+    /// `false` for NaN and infinities, those can't be turned into tokens.
+    fn is_finite(self) -> bool;
+
     fn from_u64(v: u64) -> Option<Self>;
     fn from_i64(v: i64) -> Option<Self>;
     fn from_f64(v: f64) -> Option<Self>;
@@ -171,10 +174,13 @@ impl<T: RangeNumber> Range<T> {
 
     pub fn new(s: &str) -> Result<Self> {
         let parse = |s: &str| {
-            s.parse::<T>().map_err(|_| Error::RangeParse {
-                range: s.to_string(),
-                range_type: T::TYPE,
-            })
+            s.parse::<T>()
+                .ok()
+                .filter(|v| v.is_finite())
+                .ok_or_else(|| Error::RangeParse {
+                    range: s.to_string(),
+                    range_type: T::TYPE,
+                })
         };
         let s = s.trim();
         if matches!(s, "_" | "..") {
@@ -1031,7 +1037,16 @@ impl<'de, T: RangeNumber> serde::de::Visitor<'de> for RangeSeed<T> {
     where
         E: serde::de::Error,
     {
+        // NaN and infinities (`.inf`, `.nan` in YAML) can't be turned into tokens.
+        if !v.is_finite() {
+            return Err(serde::de::Error::invalid_value(
+                serde::de::Unexpected::Float(v),
+                &"a finite number",
+            ));
+        }
         T::from_f64(v)
+            // can be infinite after the conversion to f32
+            .filter(|v| v.is_finite())
             .map(Range::Exact)
             .ok_or(Error::RangeNumberType {
                 found: RangeType::F64,
@@ -1107,6 +1122,10 @@ mod range_number_impl {
                         self.checked_sub(1).map(Bound::Included)
                     }
 
+                    fn is_finite(self) -> bool {
+                        true
+                    }
+
                     fn from_i64(v: i64) -> Option<Self> {
                         <$num_type>::try_from(v).ok()
                     }
@@ -1133,6 +1152,10 @@ mod range_number_impl {
 
                     fn range_end_bound(self) -> Option<Bound<Self>> {
                         Some(Bound::Excluded(self))
+                    }
+
+                    fn is_finite(self) -> bool {
+                        <$num_type>::is_finite(self)
                     }
 
                     fn from_i64(v: i64) -> Option<Self> {
